@@ -57,6 +57,8 @@ fn main() {
     if name == "noop" {
         return;
     }
+    // every leaf source of readiness in this binary is a virtual one: check the wake-up contract on every poll
+    vnet::enable_wake_contract_check(true);
     // Monitors catch panics per case; this is the safety net for one that escapes: a panic raised inside
     // /repo sources is a violation, one raised in the harness is a harness defect (inconclusive).
     let report = match vnet::catch(|| match name {
@@ -83,6 +85,17 @@ fn main() {
         Ok(r) => r,
         Err(msg) => panic_report(name, &msg),
     };
+    let mut report = report;
+    let (breaches, what) = vnet::take_wake_contract_breaches();
+    report.add("wake_contract_breaches", breaches);
+    if breaches > 0 {
+        let prop = name.to_uppercase();
+        report.violation(
+            &format!("{prop}/future-returned-pending-without-arranging-a-wake-up"),
+            format!("{breaches} poll(s) returned Pending although the task's waker neither fired during the poll nor was registered with any source of readiness (under a runtime that task is never polled again): {}", what.join("; ")),
+            serde_json::json!({"monitor": name}),
+        );
+    }
     let js = serde_json::to_string(&report.to_json()).unwrap();
     match &cfg.out {
         Some(p) => std::fs::write(p, js).expect("write report"),
